@@ -352,3 +352,23 @@ func canaryUseImpl(p *Header) uint8 {
 	var i canaryIface = canaryImpl{}
 	return i.Get(p)
 }
+
+func canaryNeedsNonNil(p *Header) uint8 { return p.Version }
+
+func canaryPassesNil() uint8 {
+	return canaryNeedsNonNil(nil)
+}
+
+func canaryNoFrameCallee(q *Header) { q.Version = 9 }
+
+func canaryNoFrameCaller(p, q *Header) {
+	p.Version = 0
+	canaryNoFrameCallee(q)
+}
+
+func canaryOldAtCall(p *Header) {
+	p.Version = 1
+	canaryIncr(p)
+}
+
+func canaryIncr(p *Header) { p.Version++ }
